@@ -170,4 +170,33 @@ def run_iterprog(chk, facts, rid, crates, floor):
             chk.ob(rid, f"{b.path}: {msg}", ok, key=f"next|{b.path}", file=b.file, line=b.lo, fn=b.path,
                    detail=f"{msg}; path through lines {lines}: the same call then yields forever on that state")
     chk.floor(rid, "hand-written Iterator::next bodies", n, floor)
+    # closures handed to `core::iter::from_fn` are `next` bodies too: their captured variables are the iterator's state
+    nf = 0
+    for c in crates:
+        if c not in facts.crates:
+            continue
+        closures = {}
+        for b in facts.all_bodies(c, kinds=("closure",)):
+            closures.setdefault((b.file, b.lo), []).append(b)
+        seen = set()
+        for b in facts.all_bodies(c, kinds=("fn", "closure")):
+            if b.generated:
+                continue
+            for bb, t in b.calls():
+                if not t.callee.endswith("iter::sources::from_fn::from_fn") and not t.callee.endswith("core::iter::from_fn"):
+                    continue
+                for aty in (t.d.get("atys") or []):
+                    m = re.match(r"^\{closure@([^:]+):(\d+):", aty)
+                    if not m:
+                        continue
+                    for cb in closures.get((m.group(1), int(m.group(2))), []):
+                        if cb.path in seen or not cb.locals[1][0].startswith("&mut"):
+                            continue
+                        seen.add(cb.path)
+                        nf += 1
+                        ok, msg, lines = check_next(cb, facts)
+                        chk.ob(rid, f"from_fn closure {cb.path}: {msg}", ok, key=f"from_fn|{cb.path}", file=cb.file, line=cb.lo, fn=cb.path,
+                               detail=f"{msg}; path through lines {lines}: the iterator built by from_fn then yields forever "
+                                      f"(a consumer such as count() / collect() never returns)")
+    chk.stats[f"{rid}:from_fn_closures"] = nf
     return n
